@@ -249,7 +249,7 @@ def _shapes(tier: str, seed: int) -> List[dict]:
     if tier == "quick":
         exprs = leaves + core + gen.sample(d1, 24, seed) + gen.sample(d2, 12, seed + 1)
     else:
-        exprs = leaves + core + d1 + gen.sample(d2, 450, seed + 1)
+        exprs = leaves + core + d1 + gen.sample(d2, 120, seed + 1)
     out, seen = [], set()
     for e in exprs:
         sh, hs = gen.renumber(e)
@@ -295,7 +295,8 @@ def main() -> int:
     run.bounds = {"names": "alias keys, targets, fields, function names, parameter names, lambda variables, namespace "
                            "segments: symbolic str, len == 1 (one arbitrary code point) - all equality patterns covered",
                   "alias maps": "8 map shapes: 1-2 keys; key in {identifier, path/1, path/2}; target in {identifier, "
-                                "path, call}", "tree shapes": len(SHAPES),
+                                "path, call}; the core shapes meet all 8, every other shape 2 (quick) / 4 (thorough) of them in "
+                                "rotation", "tree shapes": len(SHAPES),
                   "constructor": f"symbolic picks among {len(CTOR_TEXTS)} concrete alias texts, fresh vs caller-supplied lexer/parser"}
     run.outside = ["names longer than one character", "maps with more than 2 keys", "nesting deeper than 2"]
     run.assumptions = ["the alias map is given to the real rewriter as a hash-free Mapping (linear == scan) - equivalent to a "
@@ -311,7 +312,8 @@ def main() -> int:
         big = run.tier == "quick" and sh["n"] > 6       # quick: the largest shapes get fewer companion obligations
         if sh["n"] and not big:
             items.append(Item(f"bij{i}", params, pre, f"check_bijection({i}, {argt})", describe=d, family="bijection-inverse"))
-        which = range(nm) if (sh.get("core") or run.tier == "thorough") else [(i * 2) % nm, (i * 2 + 1) % nm]
+        which = range(nm) if sh.get("core") else \
+            ([(i + j) % nm for j in range(4)] if run.tier == "thorough" else [(i * 2) % nm, (i * 2 + 1) % nm])
         if big:
             which = [0, 2, 5] if sh.get("core") else [(i * 2) % nm]
         if sh.get("core") and "'Lambda'" in repr(sh["expr"]) and repr(sh["expr"]).count("'Attr'") >= 4:
